@@ -213,6 +213,23 @@ func runDirect(t *rapid.T, r *rec.Recorder) {
 		}
 		setup = append(setup, "transfer escrow: "+fund)
 	}
+	// a sibling route: the same base denomination as it arrives over ANOTHER channel of this chain (the id of the packet's
+	// source channel, which names a different local channel when the two ends have different ids) is a registered, enabled
+	// pair of its own and the receiver holds some of those vouchers; none of that may be touched by this receive
+	sibling := ""
+	var siblingPair *aggregatetypes.TokenPair
+	if canHold && denomOK && amountOK && !returning && srcCh != dstCh && reg != regModuleOff && rapid.Bool().Draw(t, "siblingRoute") {
+		sib := voucherDenom(srcPort, srcCh, den.Data)
+		if sib != credited && sdk.ValidateDenom(sib) == nil {
+			if _, found := pairOf(a, ctx, sib); !found {
+				mintTo(a, ctx, recv.Acc, sdk.NewCoins(sdk.NewCoin(sib, amount.AddRaw(rapid.Int64Range(0, 50).Draw(t, "siblingExtra")))))
+				if p, err := registerCoin(a, ctx, sib); err == nil {
+					sibling, siblingPair = sib, &p
+					setup = append(setup, "sibling route registered, receiver holds its vouchers")
+				}
+			}
+		}
+	}
 	recvDisabled := rapid.IntRange(0, 19).Draw(t, "receiveDisabled") == 0
 	if recvDisabled {
 		a.IBCTransferKeeper.SetParams(ctx, transfertypes.Params{SendEnabled: true, ReceiveEnabled: false})
@@ -246,6 +263,32 @@ func runDirect(t *rapid.T, r *rec.Recorder) {
 		r.Exclude(keyNilAck) // known finding: the success acknowledgement is replaced by nil; the conversion clause is still checked below
 	case !mid.equal(bare):
 		t.Fatalf("acknowledgement changed by the middleware: bare transfer app %+v, middleware %+v\n%s", bare, mid, log)
+	}
+
+	// bystanders: apart from the credited denomination (and its pair) the middleware branch must leave the receiver and the
+	// module account exactly as the bare transfer application leaves them
+	if recv.Acc != nil && bare.Panicked == "" && mid.Panicked == "" {
+		for _, who := range []sdk.AccAddress{recv.Acc, aggModuleAcc} {
+			bt, bm := a.BankKeeper.GetAllBalances(ctxT, who), a.BankKeeper.GetAllBalances(ctxM, who)
+			seen := map[string]bool{}
+			for _, c := range append(append(sdk.Coins{}, bt...), bm...) {
+				if c.Denom == credited || seen[c.Denom] {
+					continue
+				}
+				seen[c.Denom] = true
+				if !bt.AmountOf(c.Denom).Equal(bm.AmountOf(c.Denom)) {
+					t.Fatalf("receive of %s changed the balance of ANOTHER denomination %s of %s: bare transfer app %s, middleware %s\n%s",
+						credited, c.Denom, who, bt.AmountOf(c.Denom), bm.AmountOf(c.Denom), log)
+				}
+			}
+		}
+		if siblingPair != nil {
+			tok, who := siblingPair.GetERC20Contract(), common.BytesToAddress(recv.Acc.Bytes())
+			if x, y := tokenBalance(a, ctxT, tok, who), tokenBalance(a, ctxM, tok, who); x.Cmp(y) != 0 {
+				t.Fatalf("receive of %s changed the receiver's tokens of the sibling route %s: %s -> %s\n%s", credited, sibling, x, y, log)
+			}
+			r.Label("sibling-route-untouched")
+		}
 	}
 
 	nontrivial := false
